@@ -1,5 +1,5 @@
 #!/bin/sh
-# usage: engine/at_commit.sh <commit-ish> [patch.diff | revert:<commit>] -- <vcheck args...>
+# usage: engine/at_commit.sh <commit-ish> [patch.diff | revert:<commit>[,<commit>...]] -- <vcheck args...>
 # Runs vcheck against a scratch worktree of /repo at the given commit (optionally with a patch
 # applied or a commit reverted), then removes the worktree. Evidence and replays of such a run
 # go to a scratch directory (printed), never to /verif/evidence.
@@ -13,7 +13,7 @@ E=$(mktemp -d /tmp/verif-ev-XXXXXX)
 git -C /repo worktree add -q --detach "$D" "$C"
 case "$P" in
   "") ;;
-  revert:*) git -C "$D" revert -n --no-edit "${P#revert:}" >/dev/null 2>&1 || { echo "REVERT-CONFLICT ${P#revert:}"; git -C /repo worktree remove --force "$D"; rm -rf "$E"; exit 3; } ;;
+  revert:*) for c in $(echo "${P#revert:}" | tr ',' ' '); do git -C "$D" revert -n --no-edit "$c" >/dev/null 2>&1 || { echo "REVERT-CONFLICT $c"; git -C /repo worktree remove --force "$D"; rm -rf "$E"; exit 3; }; done ;;
   *) git -C "$D" apply "$(readlink -f "$P")" ;;
 esac
 rc=0
